@@ -136,10 +136,15 @@ class BuiltinMixin:
         if name in ("min", "max"):
             return self.minmax(st, name, args, node)
         if name == "sorted":
-            if any(k != "reverse" for k in kwargs):
-                raise Unsupported("sorted(key=...)", node)
+            if any(k not in ("reverse", "key") for k in kwargs):
+                raise Unsupported("sorted(...) keyword", node)
+            by_abs = False
+            if "key" in kwargs:
+                if kwargs["key"].py != ("builtin", "abs"):
+                    raise Unsupported("sorted(key=...) other than key=abs", node)
+                by_abs = True
             rev = self.truthy(st, kwargs["reverse"]) if "reverse" in kwargs else None
-            return [Out("val", st, self.sorted_(st, args[0], node, rev))]
+            return [Out("val", st, self.sorted_(st, args[0], node, rev, by_abs))]
         if name == "abs":
             x = self.as_int(args[0])
             return [Out("val", st, vint(z3.If(x < 0, -x, x)))]
@@ -340,13 +345,13 @@ class BuiltinMixin:
             outs.append(Out("val", s2, vint(m)))
         return outs
 
-    def sorted_(self, st: State, v: Val, node, rev=None) -> Val:
+    def sorted_(self, st: State, v: Val, node, rev=None, by_abs=False) -> Val:
         """sorted(xs): a permutation of xs (assumed contract; ordering facts only for ints / strings)."""
         keyview = v.py[1] if (v.py is not None and v.py[0] == "iter" and "dom" in v.py[1]) else None
         if keyview is None and v.tup is None and hint_kind(v.th.strip_optional() if v.th is not None else None) in ("dict", "set"):
             keyview = self.keys_view(st, v, node)
             v = Val(py=("iter", keyview), th=v.th)
-        res = self._sorted(st, v, node, rev)
+        res = self._sorted(st, v, node, rev, by_abs)
         if keyview is not None:
             # the sorted list of a key set enumerates it without repetition: position function in both directions
             items = st.hread("$litems", V.r(res.z))
@@ -357,7 +362,7 @@ class BuiltinMixin:
             st.assume(z3.ForAll([j], z3.Implies(z3.And(0 <= j, j < n), z3.And(z3.Select(dom, z3.Select(items, j)), spos(z3.Select(items, j)) == j))))
         return res
 
-    def _sorted(self, st: State, v: Val, node, rev=None) -> Val:
+    def _sorted(self, st: State, v: Val, node, rev=None, by_abs=False) -> Val:
         src = self.to_list(st, v, node) if (v.tup is not None or hint_kind(v.th) != "list") else v
         r0 = V.r(src.z)
         n = st.hread("$llen", r0)
@@ -373,14 +378,17 @@ class BuiltinMixin:
         eth = src.th.args[0] if src.th and src.th.args else None
         ek = hint_kind(eth)
         if ek == "int":
-            asc = V.i(z3.Select(items, j)) <= V.i(z3.Select(items, k))
+            kj, kk = V.i(z3.Select(items, j)), V.i(z3.Select(items, k))
+            if by_abs:
+                kj, kk = z3.If(kj < 0, -kj, kj), z3.If(kk < 0, -kk, kk)
+            asc = kj <= kk
             if rev is not None:
-                asc = z3.If(rev, V.i(z3.Select(items, j)) >= V.i(z3.Select(items, k)), asc)
+                asc = z3.If(rev, kj >= kk, asc)
             st.assume(z3.ForAll([j, k], z3.Implies(z3.And(0 <= j, j < k, k < n), asc)))
         elif ek == "str":
             lt = z3.Function("str_lt", IntS, IntS, BoolS)
-            if rev is not None:
-                raise Unsupported("sorted(strings, reverse=...)", node)
+            if rev is not None or by_abs:
+                raise Unsupported("sorted(strings, reverse=... / key=...)", node)
             st.assume(z3.ForAll([j, k], z3.Implies(z3.And(0 <= j, j < k, k < n),
                                                    z3.Not(lt(V.s(z3.Select(items, k)), V.s(z3.Select(items, j)))))))
         return self.new_list_sym(st, items, n, eth)
